@@ -31,7 +31,7 @@ ASSUMPTIONS = [
     "times whose t*rate is within 1e-6 of a .5 tie are skipped",
 ]
 REQUIRED_CLASSES = ["read_at_times:second_read_on_same_handle", "read_at_times:keep", "read_at_times:delete", "read_at_times:replacement", "read_at_times:offgrid",
-                    "read_at_times:rejected_beyond", "split:tg_output", "split:secondary_empty_under_interval", "generators:sine"]
+                    "read_at_times:rejected_beyond", "split:tg_output", "split:secondary_empty_under_interval", "generators:sine", "generators:exact_half_sample"]
 
 
 def write_wav(fn, samples, width, rate):
@@ -258,8 +258,15 @@ def run_generators(case):
     width, rate, d = case["width"], case["rate"], case["duration"]
     g = audio.AudioGenerator(width, rate)
     x, tie = nearest(d, rate)
+    exact_tie = False
     if tie:
-        return {"classes": ["skipped_tie"], "nontrivial": False}
+        prod = Fraction(d) * rate
+        if prod.denominator == 2 and float(prod) == d * rate:
+            # rate*duration is exactly k+0.5 also in floating point: 'round' is Python's round (half to even)
+            x = round(float(prod))
+            exact_tie = True
+        else:
+            return {"classes": ["skipped_tie"], "nontrivial": False}
     sil = g.generateSilence(d)
     if len(sil) != x * width or any(sil):
         raise Violation("silence", f"generateSilence({d}) at {rate} Hz width {width}: {len(sil)} bytes, expected {x * width} zero bytes")
@@ -275,7 +282,7 @@ def run_generators(case):
     f = g.buildSineWaveGenerator(case["freq"], amp)
     if f(d) != sine:
         raise Violation("sine-generator", "buildSineWaveGenerator(f)(d) differs from generateSineWave(d)")
-    return {"classes": ["sine", "silence"], "nontrivial": x > 0}
+    return {"classes": ["sine", "silence"] + (["exact_half_sample"] if exact_tie else []), "nontrivial": x > 0}
 
 
 # ------------------------------------------------------------------- generators
@@ -330,8 +337,9 @@ def split_cases(draw):
 @st.composite
 def gen_cases(draw):
     width = draw(st.sampled_from([1, 2, 4]))
-    rate = draw(st.sampled_from([8, 100, 8000, 16000, 44100]))
-    d = draw(st.one_of(st.integers(0, 300).map(lambda k: k / rate), st.floats(0, 0.01), st.sampled_from([0.0, 0.0015, 0.01, 0.1])))
+    rate = draw(st.sampled_from([8, 16, 100, 8000, 16000, 44100]))
+    d = draw(st.one_of(st.integers(0, 300).map(lambda k: k / rate), st.floats(0, 0.01), st.sampled_from([0.0, 0.0015, 0.01, 0.1]),
+                       st.integers(0, 40).map(lambda k: (k + 0.5) / rate)))
     if d * rate > 2000:
         d = 2000 / rate
     return {"width": width, "rate": rate, "duration": d, "freq": draw(st.sampled_from([1, 3, 200, 440])),
